@@ -37,18 +37,19 @@ func (w *methodWorld) builder(b string) *mocker.Builder {
 	return w.b[b]
 }
 
-// lu: an unexported struct type of THIS package, addressed by name without Pkg() (the builder's current package)
-type lu struct{ Tag int }
+// u: an unexported struct type of THIS package with the SAME NAME as mz.u (a type is addressed by package AND name), addressed
+// without Pkg() (the builder's current package)
+type u struct{ Tag int }
 
 //go:noinline
-func (p *lu) Call(a int) int {
+func (p *u) Call(a int) int {
 	if a < -10000 {
 		fmt.Println("never")
 	}
 	return 1100 + a + p.Tag
 }
 
-var instL = []*lu{{Tag: 1}, {Tag: 2}, {Tag: 3}}
+var instL = []*u{{Tag: 1}, {Tag: 2}, {Tag: 3}}
 
 const mzPkg = "github.com/tencent/goom/zzverif/corpus/mz"
 
@@ -150,16 +151,16 @@ func (w *methodWorld) Do(st Step) string {
 					h.As(func(p *mz.UL, a int) int { return 0 }).Return(base + 7)
 				}
 			case "l":
-				h := bl.ExportStruct("*lu").Method("Call")
+				h := bl.ExportStruct("*u").Method("Call")
 				if apply {
-					h.Apply(func(p *lu, a int) int {
+					h.Apply(func(p *u, a int) int {
 						if p == nil || p.Tag < 1 || p.Tag > 3 || p != instL[p.Tag-1] {
-							w.bad("lu.Call: receiver %+v", p)
+							w.bad("u.Call: receiver %+v", p)
 						}
 						return base + a
 					})
 				} else {
-					h.As(func(p *lu, a int) int { return 0 }).Return(base + 7)
+					h.As(func(p *u, a int) int { return 0 }).Return(base + 7)
 				}
 			case "E":
 				if apply {
